@@ -1205,6 +1205,9 @@ func fnKey(fn *ssa.Function) string { return shortPkg(fnPkgPath(fn)) + "." + rel
 // namedLocals: the named local variables of fn in declaration order, with their rank per type.
 func namedLocals(fn *ssa.Function) []localHint {
 	var out []localHint
+	for i, p := range fn.Params {
+		out = append(out, localHint{Name: p.Name(), Type: "param:" + p.Type().String(), Ord: i})
+	}
 	per := map[string]int{}
 	seen := map[string]bool{}
 	for _, b := range fn.Blocks {
@@ -1225,6 +1228,17 @@ func namedLocals(fn *ssa.Function) []localHint {
 	return out
 }
 
+// paramHintIndex: the index the parameter called name had on the unchanged tree (-1: unknown).
+func (E *Engine) paramHintIndex(fn *ssa.Function, name string) int {
+	E.loadHints()
+	for _, h := range E.hints[fnKey(fn)] {
+		if h.Name == name && strings.HasPrefix(h.Type, "param:") {
+			return h.Ord
+		}
+	}
+	return -1
+}
+
 func (E *Engine) loadHints() {
 	if E.hints != nil {
 		return
@@ -1239,7 +1253,7 @@ func (E *Engine) loadHints() {
 func (E *Engine) localByHint(fn *ssa.Function, name string) *ssa.Alloc {
 	E.loadHints()
 	for _, h := range E.hints[fnKey(fn)] {
-		if h.Name != name {
+		if h.Name != name || strings.HasPrefix(h.Type, "param:") {
 			continue
 		}
 		n := 0
